@@ -2137,9 +2137,17 @@ fn malformed(fault: &str, id: u64) -> Vec<u8> {
         "badspec" => f.h.spec = 0x1234,
         "badlen" => f.h.length += 7,
         "shortlen" => f.h.length = 40,
+        "hugelen" => {
+            // self-consistent header declaring 2^60 body bytes (the declared size cannot be allocated)
+            f.h.body_length = 1 << 60;
+            f.h.length = 48 + f.h.query_length + (1 << 60);
+        }
         _ => {}
     }
     let mut v = f.to_vec();
+    if fault == "hugelen" {
+        v.truncate(48 + 2); // header and query only; nothing follows, the socket stays open
+    }
     if fault == "trailing" {
         v.extend_from_slice(b"zz");
     }
@@ -2594,6 +2602,28 @@ fn run_stall_case(h: &H, out: &mut Out, idx: &str, kind: usize, fault: &str) {
     }
     let ops = [op.clone()];
     let Ok(mut s) = h.open(kind) else { return };
+    // WebSocket: a subscriber that has already received pushes when the failure happens
+    let mut sub = match &s.cl {
+        Cl::W(w) => w.subscribe_notifies().ok(),
+        _ => None,
+    };
+    if let Some(rx) = sub.as_mut() {
+        s.send(Cmd::Send(vec![response(90, true, 1, -1), response(91, true, 2, -1)]));
+        let _ = s.srv_done();
+        let got = h.rt.block_on(async {
+            let mut n = 0;
+            while n < 2 {
+                match tokio::time::timeout(call_watchdog(), rx.recv()).await {
+                    Ok(Some(_)) => n += 1,
+                    _ => break,
+                }
+            }
+            n
+        });
+        if got != 2 {
+            out.oracle_fail("deadconn.ws.pushes_lost", &format!("the subscriber received {} of 2 pushes", got), &ops);
+        }
+    }
     // A: small, written, never answered
     s.call(h, 0, req_body(0), None);
     s.send(Cmd::WaitUnread(req_wire_len(kind)));
@@ -2632,6 +2662,22 @@ fn run_stall_case(h: &H, out: &mut Out, idx: &str, kind: usize, fault: &str) {
     }
     if a == "HANG" {
         out.oracle_fail(&format!("deadconn.{}.stalled_writer_blocks_failure", kname), &format!("the peer sent a malformed frame ({}) while another caller was stalled in write (peer not reading): the in-flight call was not failed within {:?}", fault, wd), &ops);
+    }
+    // the subscriber's stream ends although the writer is still stalled and the socket still up
+    if let Some(rx) = sub.as_mut() {
+        let r = h.rt.block_on(async {
+            loop {
+                match tokio::time::timeout(wd, rx.recv()).await {
+                    Ok(Some(_)) => continue,
+                    Ok(None) => return true,
+                    Err(_) => return false,
+                }
+            }
+        });
+        if !r {
+            out.oracle_fail("deadconn.ws.subscriber_open", &format!("the connection failed (malformed frame {}, writer stalled, socket kept open) but a subscriber that had received pushes saw no end-of-stream within {:?}", fault, wd), &ops);
+            saw_hang();
+        }
     }
     // the blocking client shuts the socket down outside the writer mutex: that must also release the
     // call that is stalled inside `write`, while the peer still keeps the socket open
@@ -3174,31 +3220,51 @@ fn run_slowpeer_case(h: &H, out: &mut Out, idx: &str, kind: usize, mib: usize) {
 /// a timeout (and a second call waits with a generous one): a slow peer is not a dead one; both calls get
 /// their answers whatever the pause.
 fn run_stallfrag_case(h: &H, out: &mut Out, idx: &str, kind: usize, ms: u64) {
+    run_stallfrag_case_in(h, out, "deadconn", idx, kind, ms)
+}
+fn run_stallfrag_case_in(h: &H, out: &mut Out, fam: &str, idx: &str, kind: usize, ms: u64) {
     let kname = KINDS[kind];
-    let op = format!("stallfrag {} {} {}", idx, kind, ms);
+    let op = format!("{} {} {} {}", if fam == "mux" { "mstallfrag" } else { "stallfrag" }, idx, kind, ms);
     out.begin(&op);
     if stop_now(out) {
         return;
     }
     let ops = [op.clone()];
     let Ok(mut s) = h.open(kind) else { return };
-    s.call_v(h, 0, 10, None);
+    // call 0 takes its answer as a raw message (its body is opaque bytes, see below)
+    {
+        let tx = s.ev_tx.clone();
+        let path = vpath(0, 12);
+        let ok = |r: Result<Message, RepeError>| r.map(|m| json!({"tag": 0, "c": 0, "len": m.body.len()}));
+        match s.cl.clone() {
+            Cl::B(cl) => { std::thread::spawn(move || { let r = ok(cl.call_with_formats(&path, 1, Some(b"{}"), 2)); let _ = tx.send(Event::Res(0, r)); }); }
+            Cl::A(cl) => { h.rt.spawn(async move { let r = ok(cl.call_with_formats(&path, 1, Some(b"{}"), 2).await); let _ = tx.send(Event::Res(0, r)); }); }
+            Cl::W(cl) => { h.rt.spawn(async move { let r = ok(cl.call_with_formats(&path, 1, Some(b"{}"), 2).await); let _ = tx.send(Event::Res(0, r)); }); }
+        }
+    }
     s.call_v(h, 1, 3, Some(Duration::from_millis(ms * 3 + 5000)));
     let frames = match s.read(2) {
         Ok(f) => f,
         Err(e) => {
-            out.oracle_fail(&format!("deadconn.{}.setup", kname), &e, &ops);
+            out.oracle_fail(&format!("{}.{}.setup", fam, kname), &e, &ops);
             return;
         }
     };
+    let id_of = |c: usize| frames.iter().find(|f| caller_of(f) == Some(c)).map(|f| f.h.id).unwrap_or(0);
+    // The answer to call 0 carries, after 100 bytes of padding, a complete well-formed frame addressed to
+    // call 1 (tag 999). The first pause falls exactly in front of it: a reader that loses its place in the
+    // stream during the pause would parse the embedded frame and hand call 1 somebody else's bytes.
+    let embedded = response(id_of(1), false, 999, 1);
+    let mut body = vec![0x20u8; 100];
+    body.extend_from_slice(&embedded);
+    let a_frame = RawFrame::request(id_of(0), false, 1, b"/t", 0, &body).to_vec();
+    let b_frame = response_v(id_of(1), false, 1, 1, 3);
+    let hdr = if kind == 2 { 4 } else { 0 }; // WebSocket frame header of a 126..65535-byte message
     let mut wire = Vec::new();
-    for f in &frames {
-        let c = caller_of(f).unwrap_or(0);
-        let m = response_v(f.h.id, false, c as i64, c as i64, variant_of(f));
-        wire.extend(if kind == 2 { ws_frame(0x82, &m) } else { m });
-    }
-    // first piece ends inside the first frame's header, second inside the second frame's body
-    let cut1 = 30usize;
+    wire.extend(if kind == 2 { ws_frame(0x82, &a_frame) } else { a_frame.clone() });
+    wire.extend(if kind == 2 { ws_frame(0x82, &b_frame) } else { b_frame });
+    // first piece ends right in front of the embedded frame, second inside the second frame's body
+    let cut1 = hdr + 48 + 2 + 100;
     let cut2 = wire.len() - 9;
     s.send(Cmd::SendRaw(wire[..cut1].to_vec()));
     let _ = s.srv_done();
@@ -3213,11 +3279,70 @@ fn run_stallfrag_case(h: &H, out: &mut Out, idx: &str, kind: usize, ms: u64) {
     let a = own(&s.res_of(0, call_watchdog()), 0);
     let b = own(&s.res_of(1, call_watchdog()), 1);
     if a != "own" || b != "own" {
-        out.oracle_fail(&format!("deadconn.{}.slow_delivery_taken_for_failure", kname), &format!("responses delivered in three pieces {} ms apart: the calls returned {} and {}", ms, a, b), &ops);
+        out.oracle_fail(&format!("{}.{}.slow_delivery_taken_for_failure", fam, kname), &format!("responses delivered in three pieces {} ms apart: the calls returned {} and {}", ms, a, b), &ops);
         if a == "HANG" || b == "HANG" { saw_hang(); }
     }
     let canon = |x: &str| if x == "own" { "own" } else if x == "HANG" { "HANG" } else { "Err" };
     out.case(&op, &format!("{} got {},{}", idx, canon(&a), canon(&b)), true);
+    s.send(Cmd::Close);
+}
+
+/// The response to call 0 arrives in two pieces 300 ms apart; inside the gap call 1 times out (`tmo`) or is
+/// aborted (`abort`, async/ws). Abandoning one call must not disturb the frame that is being read for
+/// another: call 0 gets its answer, a later call too.
+fn run_gap_case(h: &H, out: &mut Out, idx: &str, kind: usize, how: &str) {
+    let kname = KINDS[kind];
+    let op = format!("gap {} {} {}", idx, kind, how);
+    out.begin(&op);
+    if stop_now(out) {
+        return;
+    }
+    let ops = [op.clone()];
+    let Ok(mut s) = h.open(kind) else { return };
+    s.call_v(h, 0, 0, None);
+    s.call_v(h, 1, 2, if how == "tmo" { Some(Duration::from_millis(100)) } else { None });
+    let frames = match s.read(2) {
+        Ok(f) => f,
+        Err(e) => {
+            out.oracle_fail(&format!("deadconn.{}.setup", kname), &e, &ops);
+            return;
+        }
+    };
+    let f0 = frames.iter().find(|f| caller_of(f) == Some(0)).cloned();
+    let f1 = frames.iter().find(|f| caller_of(f) == Some(1)).cloned();
+    let (Some(f0), Some(f1)) = (f0, f1) else { return };
+    let m = response_v(f0.h.id, false, 0, 0, 0);
+    let wire = if kind == 2 { ws_frame(0x82, &m) } else { m };
+    let cut = wire.len() / 2;
+    s.send(Cmd::SendRaw(wire[..cut].to_vec()));
+    let _ = s.srv_done();
+    s.send(Cmd::Sleep(Duration::from_millis(150)));
+    let _ = s.srv_done();
+    if how == "abort" {
+        let _ = s.abort(h, 1);
+    }
+    s.send(Cmd::Sleep(Duration::from_millis(150)));
+    let _ = s.srv_done();
+    s.send(Cmd::SendRaw(wire[cut..].to_vec()));
+    let _ = s.srv_done();
+    let a = own(&s.res_of(0, call_watchdog()), 0);
+    if a != "own" {
+        out.oracle_fail(&format!("deadconn.{}.abandoned_call_disturbs_frame_in_transit", kname), &format!("call 1 was abandoned ({}) while the response to call 0 was half delivered: call 0 returned {}", how, a), &ops);
+        if a == "HANG" { saw_hang(); }
+    }
+    // the abandoned call's late answer, then a later call
+    s.send(Cmd::Send(vec![response_v(f1.h.id, false, 1, 1, 2)]));
+    let _ = s.srv_done();
+    s.send(Cmd::AutoRead);
+    let _ = s.srv_done();
+    s.call_v(h, 2, 1, None);
+    let later = own(&serve_until(&mut s, 2, 0, call_watchdog()), 2);
+    if later != "own" {
+        out.oracle_fail(&format!("deadconn.{}.later_call_after_gap", kname), &format!("a later call returned {}", later), &ops);
+        if later == "HANG" { saw_hang(); }
+    }
+    let canon = |x: &str| if x == "own" { "own" } else if x == "HANG" { "HANG" } else { "Err" };
+    out.case(&op, &format!("{} got {} later {}", idx, canon(&a), canon(&later)), true);
     s.send(Cmd::Close);
 }
 
@@ -3227,9 +3352,9 @@ fn gen_dead(args: &Args, r: &mut Rng) -> Vec<DeadCase> {
     let cuts = [1usize, 8, 24, 47, 48, 49, resp_len - 1];
     for kind in 0..3 {
         let faults: Vec<&str> = if kind == 2 {
-            vec!["close", "reset", "wsclose", "text", "badspec", "badlen", "shortlen", "trailing", "shortmsg", "cut"]
+            vec!["close", "reset", "wsclose", "text", "badspec", "badlen", "shortlen", "hugelen", "trailing", "shortmsg", "cut"]
         } else {
-            vec!["close", "reset", "badspec", "badlen", "shortlen", "cut"]
+            vec!["close", "reset", "badspec", "badlen", "shortlen", "hugelen", "cut"]
         };
         for fault in &faults {
             let reps = if args.thorough() { 40 } else { 3 };
@@ -3972,6 +4097,8 @@ fn main() {
                     }
                 }
                 Some("fwdres") => run_fwd_residue_case(&h, &mut out, &idx),
+                Some("gap") if w.len() >= 4 => run_gap_case(&h, &mut out, &idx, w[2].parse().unwrap(), w[3]),
+                Some("mstallfrag") if w.len() >= 4 => run_stallfrag_case_in(&h, &mut out, "mux", &idx, w[2].parse().unwrap(), w[3].parse().unwrap()),
                 Some("stallfrag") if w.len() >= 4 => run_stallfrag_case(&h, &mut out, &idx, w[2].parse().unwrap(), w[3].parse().unwrap()),
                 Some("knobs") if w.len() >= 4 => run_knobs_case(&h, &mut out, &idx, w[3].parse().unwrap()),
                 Some("batchtmo") if w.len() >= 4 => run_batchtmo_case(&h, &mut out, &idx, w[2].parse().unwrap(), w[3].parse().unwrap()),
@@ -4064,6 +4191,14 @@ fn main() {
             run_lates_case_in(&h1, &mut out, "mux", &format!("k{q}"), kind, 33, "late");
             q += 1;
         }
+        if args.thorough() {
+            // a response interrupted for 5.5 s right in front of a well-formed frame embedded in its body: a reader
+            // that loses its place hands the embedded frame to the other call
+            for kind in 0..3 {
+                run_stallfrag_case_in(&h, &mut out, "mux", &format!("sf{q}"), kind, 5500);
+                q += 1;
+            }
+        }
         for mode in ["ids", "dup", "reuse"] {
             run_fwd_case(&h, &mut out, &format!("f{q}"), mode);
             q += 1;
@@ -4111,6 +4246,13 @@ fn main() {
             c += 1;
         }
         run_fwd_residue_case(&h, &mut out, "fr0");
+        // a call abandoned while another call's response is half delivered
+        for kind in 0..3 {
+            run_gap_case(&h, &mut out, &format!("g{kind}t"), kind, "tmo");
+            if kind != 0 {
+                run_gap_case(&h, &mut out, &format!("g{kind}a"), kind, "abort");
+            }
+        }
         // responses delivered in pieces with pauses longer than any plausible internal timer
         for kind in 0..3 {
             for ms in if args.thorough() { vec![300u64, 600, 1100, 2500, 5500, 11_000] } else { vec![300, 600, 1100] } {
